@@ -139,6 +139,8 @@ def make_stream(s):
         return io.TextIOWrapper(open(path, "ab", buffering=0), encoding="utf8", newline="")
     if impl == "linewrap":
         return io.TextIOWrapper(open(path, "ab"), encoding="utf8", newline="", line_buffering=True)
+    if impl == "reconf":
+        return open(path, "a", buffering=1, encoding="utf8", newline="")   # reconfigured after add(), see below
     if impl == "stderr":
         return sys.stderr          # redirected by the parent to s["path"]
     if impl == "membuf":
@@ -193,6 +195,8 @@ for s in spec["sinks"]:
     else:
         st = make_stream(s)
         IDS[s["name"]] = logger.add(st, format=fmt, serialize=ser, enqueue=bool(s.get("enqueue")), colorize=False)
+        if s.get("impl") == "reconf":
+            st.reconfigure(line_buffering=False)    # the stream's buffering changes after it was added
 
 if die["mode"] == "mid":
     def killer(m):
@@ -209,8 +213,24 @@ def after(i):
         time.sleep(300)
         os._exit(9)
 
+def maybe_fork(i):
+    """the daemonisation recipe: the handlers were added by the launcher; it leaves with os._exit and the
+    forked process carries on and later exits normally"""
+    fk = spec.get("fork")
+    if not fk or fk["at"] != i:
+        return
+    pid = os.fork()
+    if pid == 0:
+        report("forked %d" % i)
+        return
+    if fk["launcher"] == "wait":
+        _, status = os.waitpid(pid, 0)
+        os._exit(os.waitstatus_to_exitcode(status) & 0xFF)
+    os._exit(0)
+
 def main():
     after(0)
+    maybe_fork(0)
     for i, m in enumerate(spec["messages"], 1):
         CUR[0] = i
         lg = logger.bind(i=i, rot=bool(m.get("rot"))).opt(raw=bool(m.get("raw")), exception=bool(m.get("exc")))
@@ -222,6 +242,7 @@ def main():
         else:
             lg.info(m["text"])
         after(i)
+        maybe_fork(i)
     report("end")
     if die["mode"] == "sys_exit":
         sys.exit(3)
@@ -475,6 +496,7 @@ STREAM_IMPLS = {
     "linewrap": (1, 1, 0),   # TextIOWrapper(buffered binary, line_buffering=True)
     "stderr": (1, 1, 0),     # the process's own sys.stderr (redirected to a file by the parent)
     "membuf": (1, 1, 0),     # a user class buffering in memory until flush()
+    "reconf": (1, 1, 0),     # open(path, "a", buffering=1), then reconfigure(line_buffering=False) after add()
 }
 
 
@@ -630,6 +652,25 @@ def gen_cases(ctx):
         add("exit", [{"sinks": [file_sink(enqueue=enq, retention=1)], "messages": msgs,
                       "die": {"mode": rng.choice(["return", "sys_exit", "unhandled"])}}],
             pre={"F.old1.log": "old one\n", "F.old2.log": "old two\n"}, old=["F.old1.log", "F.old2.log"])
+    # B2: the exit clause in a process FORKED after add() (daemonisation recipe: the launcher leaves with os._exit -
+    #     at once, or after waiting for the child - and the forked process exits normally); handlers without
+    #     enqueue, end-of-life compression / retention and a stoppable stream make the finalisation observable
+    modes = ["return", "sys_exit", "unhandled"]
+    for rep in range(ctx.n(1, 4) * boost):
+        rng.shuffle(modes)
+        for j, mode in enumerate(modes):
+            n = rng.range(2, K)
+            msgs = gen_messages(rng, n, False, allow_f7=(j == 1))
+            fork = {"at": rng.choice([0, 0, rng.range(0, n)]), "launcher": ["leave", "wait"][(rep + j) % 2]}
+            if j % 3 == 2:
+                sinks = [file_sink(retention=1), stream_sink(stoppable=True)]
+                extra = dict(pre={"F.old1.log": "old one\n", "F.old2.log": "old two\n"}, old=["F.old1.log", "F.old2.log"])
+            else:
+                sinks = [file_sink(compression="gz"), stream_sink(stoppable=True)]
+                extra = {}
+            st = {"sinks": sinks, "messages": msgs, "die": {"mode": mode}, "fork": fork}
+            st.update(ENVIRONMENTS[(rep + j) % 3] if rng.chance(40) else {})
+            add("exit", [st], **extra)
     return cases
 
 
@@ -781,6 +822,11 @@ def judge(ctx, case, res, lines_out):
     want_rc = {"return": 0, "sys_exit": 3, "unhandled": 1}[die["mode"]]
     if "end" not in rp["flags"]:
         raise Hang("exit program did not reach its end: %s" % raw["stderr"][-500:])
+    fk = st.get("fork")
+    if fk and fk["launcher"] == "leave":
+        want_rc = 0     # the launcher left with os._exit(0); the daemon's status is not observable
+    if fk and ("forked %d" % fk["at"]) not in raw["lines"]:
+        raise Hang("the program did not fork: %s" % raw["stderr"][-300:])
     if raw["rc"] != want_rc:
         viol.append(("exit code %r after %s, expected %d; stderr %s" % (raw["rc"], die["mode"], want_rc, raw["stderr"][-300:]), None))
     n = len(st["messages"])
@@ -811,7 +857,8 @@ def judge(ctx, case, res, lines_out):
                     problems.append("end-of-life retention not performed: %s still there" % left)
             toks = [call_tok(sink, m, tx.get(i + 1, "")) for i, m in enumerate(st["messages"])]
             for q in sorted({0, n, ctx.rng.range(0, n)}):
-                line = "exitf %d %d %d %d %d %s" % (1 if sink.get("enqueue") else 0, 1 if sink.get("rotation") else 0,
+                line = "exitf %d %d %d %d %d %d %s" % (1 if sink.get("enqueue") else 0, 0 if st.get("fork") else 1,
+                                                    1 if sink.get("rotation") else 0,
                                                     1 if sink.get("compression") else 0,
                                                     1 if sink.get("retention") is not None else 0, q, " ".join(toks))
                 real = {"registered": 0 if rp["late"].get(name) == "removed" else 1,
@@ -829,7 +876,8 @@ def judge(ctx, case, res, lines_out):
                     problems.append("stream.stop() called %d times" % rp["stops"].count(name))
             toks = [call_tok(sink, m, tx.get(i + 1, "")) for i, m in enumerate(st["messages"])]
             for q in sorted({0, n}):
-                line = "exits %d %d %d %d %s" % (1 if sink.get("enqueue") else 0, 1 if sink.get("flushable", True) else 0,
+                line = "exits %d %d %d %d %d %s" % (1 if sink.get("enqueue") else 0, 0 if st.get("fork") else 1,
+                                                 1 if sink.get("flushable", True) else 0,
                                                  1 if sink.get("stoppable") else 0, q, " ".join(toks))
                 real = {"registered": 0 if rp["late"].get(name) == "removed" else 1,
                         "stops": rp["stops"].count(name), "os": observed}
@@ -944,6 +992,8 @@ def run(ctx):
             for st in case["stages"]:
                 for m in st["messages"][:k if case["kind"] == "crash" else None]:
                     ctx.stat("shape:" + m.get("shape", "?"))
+                if st.get("fork"):
+                    ctx.stat("fork:launcher-%s" % st["fork"]["launcher"])
                 ctx.stat("env:" + ("no-stderr" if st.get("close_stderr") else
                                    ",".join("%s=%s" % kv for kv in sorted(st.get("env", {}).items())) or "default"))
                 for s in st["sinks"]:
@@ -1029,6 +1079,8 @@ def replay(ctx, rep):
         bad_model = []
         if lines:
             try:
+                core.extract()   # the model must speak about the tree under replay, not about the last one checked
+                core.lean_build(["LoguruModel.Buffer.Model"], timeout=600)
                 out = core.Driver(DRIVER).run([l for l, _, _, _ in lines])
             except core.DriverError as e:
                 print("model driver does not run (broken tie G): %s" % str(e).splitlines()[0])
